@@ -220,6 +220,8 @@ def apply_rule(
     )
     its_graphs = {}
     for g2its_mapping in matcher.subgraph_monomorphisms_iter():
+        if n is not None and len(its_graphs) >= n:
+            break
         its2g_mapping = {v: k for k, v in g2its_mapping.items()}
         its = g.copy()
         its_edge_attrs = {}
